@@ -21,6 +21,10 @@ claimed = {
    text="Proof obligations discharged on the current tree: (own) the sink action closure stores to none of its captured variables, and no function reachable from any Runtime.Eval / ECALFunction.Run implementer or from the action stores to a structure shared by concurrent invocations (runtime components, AST nodes, tokens, runtime provider, function objects) unless the field has a declared lock; (lock) for varsScope every read/write of parent, children, storage and of the containers stored there holds the scope lock (SMT, ghost lock set), the lock set is balanced at every return, no lock is taken twice, helper methods are entered with the lock held, the tree-lock invariant (child.lock == parent.lock) is re-established by SetParentOfScope/NewChild and is what lets a child's critical section cover its ancestors; SetParentOfScope is only called with a scope that is not yet in the parent's tree. Counterexamples are replayed under the Go race detector (2400 overlapping invocations of one sink with payload-dictated outcomes; overlapping scope calls).",
    note="Assumed: lock-invariant (Owicki-Gries) reasoning; the lock field of a scope is only replaced while the scope is private to its creator (declared stable; writers restricted to SetParentOfScope/NewChild); Validate runs before a tree is shared; parser entry points write only the tree they create (trusted frame); callees are lock-balanced. Not decided: attribution of errors to events inside the engine (Task.Run/HandleError: see C02), races inside dependency objects, user-level shared globals.",
    ref="DESIGN.md §8 C11"),
+ "C12": dict(
+   text="Proof (SMT, ghost lock set): in mutexRuntime.Eval the block (Children[1].Eval) is entered only while this thread holds the named mutex or the owner table - read under the table lock - says this thread already owns it (re-entrancy takes no lock); ownership is registered only while holding the mutex and cleared in the deferred release before the mutex is unlocked; the deferred release runs on every return path of Eval (defer model) and the lock set at every return equals the one at entry (always released, nested activation releases nothing); every access to the mutex and owner tables holds the table lock, which is never held while the block runs; table entries are created once, as fresh objects; structurally, only the mutex runtime writes the two tables; NewThreadID is >= 1 and strictly increasing under its lock.",
+   note="Assumed: sync.Mutex excludes other threads; distinct non-zero thread ids per thread; the named mutex differs from the table lock (justified by two checked obligations, see contract file); panic exits are excluded (C06). Not decided: the cross-thread owner-table invariant itself is argued from the per-thread obligations, not mechanised.",
+   ref="DESIGN.md §8 C12"),
 }
 NA_DEFAULT = "not yet claimed: contracts for this property are still being built (DESIGN.md §8); no other technique is substituted"
 na = {}
